@@ -47,6 +47,8 @@ func c10Cases(tier string) []Case {
 		c10Case("meta-origin", []string{`monetary $x = meta(@a, "k")`}, []string{send("$x", "@b", "@d")}, nil, "a.k=USD 12", ""),
 		c10Case("meta-origin", []string{`account $x = meta(@zz, "k")`}, []string{send("%N", "$x", "@d")}, nil, "a.k=c", ""),
 		c10Case("portion-variable", nil, []string{send("%N", "{ $p from @a remaining from @b }", "{ $q to @d remaining kept }")}, map[string][2]string{"p": {"portion", "portion:1/3"}, "q": {"portion", "portion:1/4"}}, "", ""),
+		c10Case("portion-variable", nil, []string{send("%N", "{ $p from @a 1/3 from @b remaining from @c }", "@d")}, map[string][2]string{"p": {"portion", "portion:0/1"}}, "", ""),
+		c10Case("portion-variable", nil, []string{send("%N", "{ 0% from @a 1/3 from @b remaining from @c }", "{ 0/1 to @d $q to @e remaining to @f }")}, map[string][2]string{"q": {"portion", "portion:1/3"}}, "", ""),
 		c10Case("world-bounded-overdraft", nil, []string{send("%N", "{ @a @world allowing overdraft up to %K }", "@d")}, nil, "", ""),
 		c10Case("world-bounded-overdraft", nil, []string{sendAll("USD", "{ @a @world allowing overdraft up to %K }", "@d")}, nil, "", ""),
 		c10Case("two-assets-no-origin", nil, []string{"send [EUR 4] (\n  source = { @a allowing overdraft up to [EUR 5] @world }\n  destination = @d\n)", send("%N", "@a", "@e")}, nil, "", ""),
@@ -90,7 +92,7 @@ func init() {
 		Files: apiFiles, LoadPkgs: apiLoad, InitPkgs: apiInit,
 		Cases: c10Cases,
 		Bounds: stdBounds(
-			map[string]interface{}{"templates": "43 scripts with balance()/overdraft()/meta() origins, saves, account variables, two assets", "stores": "exact, sparse, superset, static, interned (one number object shared by equal entries) over one symbolic truth table (<=4 accounts x <=2 assets + world)", "runs_per_path": 5},
+			map[string]interface{}{"templates": "45 scripts with balance()/overdraft()/meta() origins, saves, account variables, two assets", "stores": "exact, sparse, superset, static, interned (one number object shared by equal entries) over one symbolic truth table (<=4 accounts x <=2 assets + world)", "runs_per_path": 5},
 			map[string]interface{}{"templates": "31 scripts", "stores": "exact, sparse, superset, static, interned", "runs_per_path": 5}),
 		Assumptions: append([]string{"metadata values are concrete per case; balances are symbolic", "stores answering with nil maps are outside (covered for panic-freedom only in C12)"}, apiAssumptions...),
 		Stubs:       append([]string{"harness stores zzStore{exact,sparse,superset,static} implement interpreter.Store"}, apiStubs...),
